@@ -1498,6 +1498,25 @@ func (e *Entry) dup() *Entry {
 		ne.Extra[k] = v
 	}
 
+	if e.ListAttr != nil {
+		la := *e.ListAttr
+		ne.ListAttr = &la
+	}
+	if e.Default != nil {
+		ne.Default = append([]string(nil), e.Default...)
+	}
+	if e.RPC != nil {
+		ne.RPC = &RPCEntry{}
+		if e.RPC.Input != nil {
+			ne.RPC.Input = e.RPC.Input.dup()
+			ne.RPC.Input.Parent = &ne
+		}
+		if e.RPC.Output != nil {
+			ne.RPC.Output = e.RPC.Output.dup()
+			ne.RPC.Output.Parent = &ne
+		}
+	}
+
 	return &ne
 }
 
